@@ -3,6 +3,7 @@ import json
 import os
 import sys
 import time
+import re
 
 import vlib
 from vlib import VERIF
@@ -138,6 +139,12 @@ def run_check(prop, tier, seed):
                         json.dumps({"bad": bad_ax, "missing": missing}), cov)
     cov["axioms"] = {t: sorted(l) for t, l in ax.items()}
     cov["theorems"] = thms
+    # non-vacuity witnesses (Witness/Wnn.v, compiled with the development): concrete non-degenerate values meeting
+    # the premises of every theorem that has premises, and the theorem applied to them
+    wf = os.path.join(vlib.COQ, "Witness", "W%s.v" % prop.id[1:])
+    if os.path.exists(wf):
+        wt = open(wf).read()
+        cov["non_vacuity_examples"] = len(re.findall(r"^(?:Example|Goal)\b", wt, flags=re.M))
     n_obl = len(thms) + 2        # + the two correspondence relations (agree, spec on impl trace)
     # ---- 2. harness from the current working tree
     ok, log = vlib.build_harness()
